@@ -1,5 +1,6 @@
 """C20 — highlighted fragments are faithful to the stored text."""
-GEN = False
+GEN = True             # go/extract/c20.go regenerates lean/BlugeGen/C20.lean (constants, comparison kernels, guard table,
+                       # and `variant`: which of the repairs work/C20/fix-1..3 the tree contains; the driver follows it)
 STATELESS = True
 REQUIRED_BRANCHES = [
     "text-invalid", "text-valid-with-U+FFFD", "text-clean",
@@ -20,9 +21,14 @@ ASSUMPTIONS = [
     "container/heap's up/down are transcribed (heapUp/heapDown); the order in which equal-score fragments are popped is part of the compared output",
     "faithfulness theorems assume `locsOK`: valid UTF-8 text, locations sorted by Start, 0 <= Start <= End <= len, Start and End on rune "
     "boundaries; the driver evaluates this predicate on the locations of every real search (verdict bad:assumption-… if one breaks it)",
+    "the model has one definition per repair variant (Bluge.Highlight.Variant: sizeGuard, locGuard, runeCut); which variant /repo is, is "
+    "read off the source by go/extract/c20.go (exact guard forms, refusal otherwise) and confirmed by the correspondence run",
+    "no-panic is judged (verdict bad:panic) on every entry point that takes locations: BestFragments, and direct Fragment / Format calls "
+    "with fragments inside the text; fragment sizes are >= 1",
     "the ANSI strip theorem assumes the text contains no ESC (0x1b) byte (evaluated per case; such cases are compared but not judged by the oracle)",
 ]
-TRUSTED = ["hand-written model Bluge.Highlight tied by the correspondence stream `highlight` (go/harness/c20, drv_c20)"]
+TRUSTED = ["hand-written model Bluge.Highlight tied by the correspondence stream `highlight` (go/harness/c20, drv_c20)",
+           "go/extract/c20.go (constants, translated comparison kernels, normalised guard table, recognition of the repair variant)"]
 
 
 def _locs(s):
